@@ -69,6 +69,13 @@ func run(r *hx.Run) error {
 	for i := 0; i < ns; i++ {
 		h.genStream(i)
 	}
+	nq := 40
+	if r.Thorough {
+		nq = 400
+	}
+	for i := 0; i < nq; i++ {
+		h.genQuery(i)
+	}
 	return nil
 }
 
@@ -287,6 +294,7 @@ func (h *H) runOps(ops []string) {
 	queue := 0
 	wf := false
 	var reports []report
+	var qops []qop
 	id := "replay"
 	for _, op := range ops {
 		f := strings.Fields(op)
@@ -330,7 +338,15 @@ func (h *H) runOps(ops []string) {
 			}
 		case "drain":
 			dops = append(dops, dop{kind: "drain"})
+		case "query":
+			if q, ok := parseQop(f); ok {
+				qops = append(qops, q)
+			}
 		}
+	}
+	if len(qops) > 0 {
+		h.queryCase(id, mask, qops)
+		return
 	}
 	if stream {
 		h.streamCase(id, mask, queue, reports, wf, data)
